@@ -10,13 +10,13 @@ ENGINE = "E0 pure"
 TECHNIQUE = ("Hypothesis over server sets (ids, permutation seeds given in the announcement or derived from the key), preferred-server lists, storage indexes, grid-manager keys and "
              "per-server certificate lists, clock values; several real StorageFarmBroker instances fed the same announcements in different insertion orders; differential "
              "oracle: 5-line reference ordering (not preferred, SHA1(storage index + seed)) and the C33 reference predicate for upload permission")
-RULE = ("each case: 1-8 servers, each with an announcement (explicit permutation seed or none) and 0-3 certificates; 0-3 preferred servers; 0-2 configured grid-manager keys; "
+RULE = ("each case: 1-8 servers, each with an announcement (explicit permutation seed or none; one in three also announcing HTTP NURLs; force_foolscap on in a quarter of cases) and 0-3 certificates; 0-3 preferred servers; 0-2 configured grid-manager keys; "
         "2 brokers populated in different orders; 1-3 storage indexes; 1-3 clock values. Oracle: get_servers_for_psi(si) == servers sorted by (not preferred, "
         "SHA1(si+seed)), identical for both brokers; with for_upload=True exactly the servers whose reference certificate predicate holds at the current clock value, in the "
         "same order. Non-trivial = >=3 servers with a preferred one, or keys configured with both permitted and excluded servers; distinct by whole case.")
 LEVEL_TEXT = "Differential search against a reference ordering and the certificate ground truth."
-ASSUMPTIONS = ["servers are registered as connected through StorageFarmBroker.test_add_rref (no network)", "the broker's certificate clock (grid_manager.current_datetime_with_zone) is replaced by the harness clock"]
-REQUIRED_CLASSES = ["preferred", "seed-from-key", "seed-explicit", "upload-filtered", "upload-all-permitted", "cert-expires-between-clock-values"]
+ASSUMPTIONS = ["servers are created by StorageFarmBroker._make_storage_server from their announcement (Foolscap, or HTTP when the announcement carries NURLs and force_foolscap is off) and marked connected by the harness (no network)", "the broker's certificate clock (grid_manager.current_datetime_with_zone) is replaced by the harness clock"]
+REQUIRED_CLASSES = ["preferred", "seed-from-key", "seed-explicit", "upload-filtered", "upload-all-permitted", "cert-expires-between-clock-values", "http-server", "foolscap-server"]
 BUDGET = {"quick": 600, "thorough": 3600}
 
 
@@ -34,9 +34,9 @@ def cases(draw):
         for c in certs:
             if draw(st.integers(0, 2)) > 0:
                 c["server"] = i % 4
-        servers.append({"explicit_seed": draw(st.booleans()), "certs": certs})
+        servers.append({"explicit_seed": draw(st.booleans()), "certs": certs, "http": draw(st.integers(0, 2)) == 0})
     return {"servers": servers, "preferred": draw(st.lists(st.integers(0, ns - 1), max_size=3, unique=True)), "configured": draw(st.lists(st.integers(0, 3), max_size=2, unique=True)),
-            "order2": draw(st.permutations(list(range(ns)))), "sis": draw(st.lists(st.integers(0, 10 ** 6), min_size=1, max_size=3)),
+            "order2": draw(st.permutations(list(range(ns)))), "force_foolscap": draw(st.integers(0, 3)) == 0, "sis": draw(st.lists(st.integers(0, 10 ** 6), min_size=1, max_size=3)),
             "times": draw(st.lists(st.integers(-101, 101) | st.sampled_from([0, 1, -1]), min_size=1, max_size=3))}
 
 
@@ -44,17 +44,11 @@ def run_shard(spec, ctx):
     ctx.drive(cases(), spec["n"], run_case)
 
 
-class _Rref:
-    version = {b"http://allmydata.org/tahoe/protocols/storage/v1": {b"maximum-immutable-share-size": 2 ** 40}, b"application-version": b"x"}
-
-    def notifyOnDisconnect(self, *a, **k):
-        return 0
-
-
 def run_case(case, ctx):
     import allmydata.grid_manager as gmmod
-    from allmydata.storage_client import StorageFarmBroker, StorageClientConfig
+    from allmydata.storage_client import StorageFarmBroker, StorageClientConfig, HTTPNativeStorageServer
     from allmydata.node import config_from_string
+    from allmydata import client
     from allmydata.util import base32
     now = [gm.T0]
     orig = gmmod.current_datetime_with_zone
@@ -70,8 +64,7 @@ def run_case(case, ctx):
                 server_id = pub[4:]                          # b"v0-..."
             else:
                 server_id = b"v0-" + base32.b2a(hashlib.sha256(b"extra-%d" % i).digest())
-            ann = {"anonymous-storage-FURL": "pb://%s@nowhere/x%d" % (str(base32.b2a(hashlib.sha1(b"tub%d" % i).digest()), "ascii"), i), "nickname": "n%d" % i,
-                   "grid-manager-certificates": [gm.build(c)[0] for c in s["certs"]]}
+            ann = gm.announcement(i, s["certs"], http=s.get("http", False))
             if s["explicit_seed"]:
                 sd = hashlib.sha256(b"seed-%d" % i).digest()[:20]
                 ann["permutation-seed-base32"] = str(base32.b2a(sd), "ascii")
@@ -86,10 +79,11 @@ def run_case(case, ctx):
         keys = [gm.keypair(i)[1] for i in case["configured"]]
 
         def broker(order):
-            cfg = config_from_string("/nonexistent-verif", "client.port", "")
+            cfg = config_from_string("/nonexistent-verif", "client.port", "[client]\nforce_foolscap = true\n" if case.get("force_foolscap") else "", _valid_config=client._valid_config())
             b = StorageFarmBroker(True, None, cfg, StorageClientConfig(preferred_peers=preferred, grid_manager_keys=keys))
             for i in order:
-                b.test_add_rref(sid[i], _Rref(), anns[i])
+                srv = gm.add_connected(b, sid[i], anns[i])
+                classes.add("http-server" if isinstance(srv, HTTPNativeStorageServer) else "foolscap-server")
             return b
         b1, b2 = broker(range(ns)), broker(case["order2"])
         nt = False
